@@ -39,4 +39,5 @@ if ! go build -modfile="$bd/go.mod" -tags "$tags" -overlay "$ov" -o "$OUT/bin/$c
   echo "HARNESS-ERROR: build of $chk failed" >&2
   exit 2
 fi
+[ -n "${VERIF_BUILD_ONLY:-}" ] && exit 0
 exec "$OUT/bin/$chk" "$@" 2> "$OUT/logs/$chk.stderr.log"
